@@ -122,6 +122,18 @@ def judge_mean(d):
                     out.append(viol("C09/group-average", f"{tag}: group {key} average differs from the mean of its own subtomograms by {e:.3g}"))
             if sorted(map(str, gavg.keys())) != sorted(map(str, keys)):
                 out.append(viol("C09/group-keys", f"{tag}: group average keys {list(gavg.keys())} vs groups {keys}"))
+        # the stack of subtomograms may be split into blocks of unequal length along the particle axis (dask's
+        # array.chunk-size): the average is still the mean over all particles
+        per = d.get("stack_block")
+        if per and n >= 2:
+            import dask
+            nbytes = int(np.prod(subs.shape[1:])) * 4 * per
+            with dask.config.set({"array.chunk-size": nbytes}):
+                avg_b = loader.average()
+            e = float(np.abs(avg_b.astype(np.float64) - subs.astype(np.float64).mean(0)).max())
+            if not e <= 1e-5 * rng:
+                out.append(viol(f"C09/average-not-mean:stack-blocks", f"{tag}: with dask array.chunk-size = {per} subtomograms per block "
+                                f"|average - mean(subtomograms)| = {e:.3g} (range {rng:.3g})", err=e))
         if d["chunks"] is not None and d["loader"] != "mock":
             d2 = dict(d)
             d2["chunks"] = None
@@ -255,7 +267,8 @@ def mean_cases(draw):
             "order": draw(st.sampled_from([0, 1, 3])), "ntomo": draw(st.integers(2, 3)) if kind == "batch" else 1,
             "tomo_of": [draw(st.integers(0, 2)) for _ in range(16)], "grp": [draw(st.integers(0, 1)) for _ in range(16)],
             "offs": [[round(draw(st.floats(-1.5, 1.5)), 2) for _ in range(3)] for _ in range(n)],
-            "rots": [draw(gen.rotvecs()) for _ in range(n)], "chunks": chunks}
+            "rots": [draw(gen.rotvecs()) for _ in range(n)], "chunks": chunks,
+            "stack_block": draw(st.sampled_from([None, 1, 2, 3, 5]))}
 
 
 @st.composite
